@@ -4,7 +4,7 @@ from __future__ import annotations
 import ast
 import typing
 
-from .. import core, types
+from .. import cfg, core, types
 
 NATIVE_ALIAS = 'forml.io.dsl._struct.kind:Native'
 SERIES = 'forml.io.dsl._struct.series'
@@ -591,3 +591,15 @@ def r_writers(ctx, funcs, table: dict[str, set[str]], rule: str = 'R-OWNER', wha
             n += 1
             ctx.check(fn.ref in table[a], rule, fn, f'{what}`{a}` is written only by {sorted(r.split(":")[1] for r in table[a])}', site)
     return n
+
+
+def stmt_under(ctx, rule: str, fn: core.FuncInfo, text: str, want: list[tuple[str, bool]], msg: str, key: str, inlined: bool = True, siblings: bool = True) -> bool:
+    """Exactly one simple statement of ``fn`` (temporaries inlined) reads ``text`` and it stands under exactly the canonical
+    guards ``want`` (order-insensitive list of (condition text, polarity); with ``siblings`` an earlier
+    sibling ``if c: ...return/raise`` counts as the guard (c, False))."""
+    f = fn.inlined() if inlined else fn
+    hits = [n for n in core.walk_local(f.node) if isinstance(n, (ast.Assign, ast.AnnAssign, ast.AugAssign, ast.Expr, ast.Return, ast.Raise, ast.Delete, ast.Assert)) and core.src(n) == text]
+    got = [sorted(cfg.cguards(n, f.node, siblings=siblings)) for n in hits]
+    ok = len(hits) == 1 and got[0] == sorted(want)
+    ctx.check(ok, rule, fn, f'{msg} (`{text}` under {sorted(want)}; found {len(hits)} time(s) under {got})', hits[0] if hits else fn.node, key=key)
+    return ok
